@@ -112,28 +112,30 @@ def make_recording(root, rec):
     d = Path(root) / "probe00"
     d.mkdir(parents=True)
     ap = d / APNAME
-    x = make_content(rng, ns, rec["content"])
+    nap = rec.get("nap") or 384          # AP channels saved to disk (SpikeGLX "save channel subset": the first nap)
+    x = make_content(rng, ns, rec["content"])[:, :nap]
     pos = np.arange(ns, dtype=np.int64)
     sy = ((rec["sync_off"] + rec["sync_mul"] * pos) % 65536).astype(np.uint16).view(np.int16)
     dat = np.concatenate([x, sy[:, None]], axis=1)
     dat.tofile(ap)
     meta = fixture_meta(kind)
     fs = float(rec["fs"])
-    meta = re.sub(r"fileSizeBytes=\d+", "fileSizeBytes=%d" % (ns * 385 * 2), meta)
+    meta = re.sub(r"fileSizeBytes=\d+", "fileSizeBytes=%d" % (ns * (nap + 1) * 2), meta)
     meta = re.sub(r"fileTimeSecs=\S+", "fileTimeSecs=" + fmt_float(ns / fs), meta)
     meta = re.sub(r"imSampRate=\S+", "imSampRate=" + rec["fs"], meta)
     sh = shank_assignment(kind, rec["shankmap"], prng)
+    head, body = re.match(r"(.*snsShankMap=\([^)]*\))(.*)", meta, re.S).groups()
+    line, rest = (body.split("\n", 1) + [""])[:2]
+    entries = re.findall(r"\(\d+:\d+:\d+:\d+\)", line)
+    assert len(entries) == 384
     if sh is not None:
-        def repl(m):
-            i = repl.i
-            repl.i += 1
-            return "(%d:%s)" % (sh[i], m.group(2))
-        repl.i = 0
-        head, body = re.match(r"(.*snsShankMap=\([^)]*\))(.*)", meta, re.S).groups()
-        line, rest = (body.split("\n", 1) + [""])[:2]
-        line = re.sub(r"\((\d+):(\d+:\d+:\d+)\)", repl, line)
-        assert repl.i == 384
-        meta = head + line + "\n" + rest
+        entries = ["(%d:%s" % (sh[i], e[1:].split(":", 1)[1]) for i, e in enumerate(entries)]
+    meta = head + "".join(entries[:nap]) + "\n" + rest
+    if nap != 384:
+        # acqApLfSy keeps describing the 384 acquired channels; the sns* keys describe the file
+        meta = re.sub(r"nSavedChans=\d+", "nSavedChans=%d" % (nap + 1), meta)
+        meta = re.sub(r"snsApLfSy=\S+", "snsApLfSy=%d,0,1" % nap, meta)
+        meta = re.sub(r"snsSaveChanSubset=\S+", "snsSaveChanSubset=0:%d,384" % (nap - 1), meta)
     ap.with_suffix(".meta").write_text(meta)
     return ap, dat
 
@@ -142,7 +144,7 @@ def make_recording(root, rec):
 # the implementation
 # --------------------------------------------------------------------------
 REC_KEYS = ("kind", "ns", "content", "shankmap", "fs", "seed", "sync_off", "sync_mul", "nshank",
-            "reuse", "nsamples", "offset", "strpath", "floatw", "compress")
+            "reuse", "nsamples", "offset", "strpath", "floatw", "compress", "nap")
 
 
 def rec_n(rec):
@@ -164,7 +166,7 @@ def impl_convert(ap, W, extra, rec, state):
         out["ap_meta"] = {"acq": [int(v) for v in m["acqApLfSy"]], "sns": [int(v) for v in m["snsApLfSy"]],
                           "nsaved": int(m["nSavedChans"]), "fsize": int(m["fileSizeBytes"]),
                           "rate": int(m["imSampRate"]),
-                          "subset_hi": int(str(m["snsSaveChanSubset"]).split(":")[-1]),
+                          "subset_hi": int(re.findall(r"\d+", str(m["snsSaveChanSubset"]))[-1]),
                           "fileTimeSecs": float(m["fileTimeSecs"])}
         cm = spikeglx._map_channels_from_meta(m)
         out["shanks"] = [int(s) for s in cm["shank"]]
@@ -188,7 +190,7 @@ def impl_convert(ap, W, extra, rec, state):
             fo["meta"] = {"acq": [int(v) for v in md["acqApLfSy"]], "sns": [int(v) for v in md["snsApLfSy"]],
                           "nsaved": int(md["nSavedChans"]), "fsize": int(md["fileSizeBytes"]),
                           "rate": md["imSampRate"],
-                          "subset_hi": int(str(md["snsSaveChanSubset"]).split(":")[-1]),
+                          "subset_hi": int(re.findall(r"\d+", str(md["snsSaveChanSubset"]))[-1]),
                           "subset_orig": decode_subset(md.get("snsSaveChanSubset_orig")),
                           "original_meta": md.get("original_meta"),
                           "shank_key": md.get("%s_shank" % conv.np_version, -1),
@@ -241,9 +243,9 @@ SOS = scipy.signal.butter(N=2, Wn=1000 / 2500 / 2, btype="lowpass", output="sos"
 
 def reference(dat):
     """zero-phase low-pass of the whole AP trace (every sample), float64, in LSB."""
-    x = dat[:, :384].astype(np.float64)
+    x = dat[:, :-1].astype(np.float64)
     if x.shape[0] <= 9:          # shorter than sosfiltfilt's padding: no reference (and no interior)
-        return np.zeros((x.shape[0], 384))
+        return np.zeros(x.shape)
     return scipy.signal.sosfiltfilt(SOS, x, axis=0)
 
 
@@ -282,10 +284,10 @@ def oracle_file(rec, W, dat, ref_full, fo, meas):
     if raw.shape != (nrows, len(chns)) or nrows != nrows_expected:
         return bad
     # sync: exactly every 12th AP sync word
-    if not np.array_equal(raw[:, -1], dat[::RATIO, 384]):
-        k = int(np.flatnonzero(raw[:, -1] != dat[::RATIO, 384])[0])
+    if not np.array_equal(raw[:, -1], dat[::RATIO, -1]):
+        k = int(np.flatnonzero(raw[:, -1] != dat[::RATIO, -1])[0])
         bad.append(("sync", "LF sync word %d is %d, AP sync word %d is %d" % (
-            k, int(raw[k, -1]), RATIO * k, int(dat[RATIO * k, 384]))))
+            k, int(raw[k, -1]), RATIO * k, int(dat[RATIO * k, -1]))))
     # values away from the two file edges: whole-trace low-pass + decimation within 1 LSB
     lo, hi = cdiv(EDGE, RATIO), (ns - EDGE - 1) // RATIO + 1     # rows with EDGE <= 12 m < ns - EDGE  (hi exclusive)
     if hi > lo:
@@ -379,10 +381,15 @@ def meta_ns_of(ap_meta):
     return int(np.round(ap_meta["fileTimeSecs"] * 2500))
 
 
+def with_cols(obs):
+    files = obs.get("files") or []
+    return 1 if files and "error" not in obs and all(fo.get("col_sources") is not None for fo in files) else 0
+
+
 def enc_input(rec, W, obs, shs):
     am = obs["ap_meta"]
     nominal = 1 if (rec["fs"] == "30000" and rec["ns"] % 12 != 6) else 0      # tie: the float product decides
-    return [rec["ns"], rec_n(rec), rec.get("offset") or 0, W, obs["version"], meta_ns_of(am), nominal] + am["acq"] + am["sns"] + \
+    return [rec["ns"], rec_n(rec), rec.get("offset") or 0, W, obs["version"], meta_ns_of(am), nominal, with_cols(obs)] + am["acq"] + am["sns"] + \
         [am["nsaved"], am["fsize"], am["rate"], am["subset_hi"], len(shs)] + shs + obs["shanks"]
 
 
@@ -404,7 +411,44 @@ def enc_output(rec, obs):
         out += [0 if str(md["original_meta"]) == "False" else 1, int(md["shank_key"])]
         out += [fo["nbytes"], rd["nc"], int(rd["fs"]) if float(rd["fs"]) == int(rd["fs"]) else -1,
                 1 if rd["type"] == "lf" else 0, rd["nsync"], rd["ns"], 1 if rd["fudged"] else 0]
+        src = fo.get("col_sources") if with_cols(obs) else []
+        out += [len(src)] + [v for kc in src for v in kc]
     return out
+
+
+def observe_col_sources(rec, dat, ref_full, fo):
+    """For every column of an lf file: (1, c) if it is the low-passed AP-file column c, (0, c) if it is column c of
+    the AP file picked every 12th sample unfiltered; c is identified from the data (all AP-file columns are tried),
+    (-1, -1) if neither.  Observed from the bytes of the lf file only."""
+    n, off = rec_n(rec), rec.get("offset") or 0
+    raw = fo["raw"]
+    d = dat[off:off + n:RATIO]
+    r = ref_full[off:off + n:RATIO]
+    if raw.ndim != 2 or raw.shape[0] != d.shape[0] or raw.shape[0] == 0:
+        return None
+    lo, hi = cdiv(EDGE, RATIO), (n - EDGE - 1) // RATIO + 1
+    res = []
+    chns = fo["chns"]
+    for i in range(raw.shape[1]):
+        col = raw[:, i]
+        hint = chns[i] if i < len(chns) and 0 <= chns[i] < d.shape[1] else None
+        # the column the converter says it wrote is tried first (several AP columns can be indistinguishable
+        # on a short interior); the decision is made on the data either way
+        if hint is not None and np.array_equal(d[:, hint], col):
+            res.append([0, int(hint)])
+            continue
+        picked = np.flatnonzero((d == col[:, None]).all(axis=0))
+        if picked.size:
+            res.append([0, int(picked[0])])
+            continue
+        if hi > lo:
+            dev = np.abs(r[lo:hi] - col[lo:hi, None].astype(np.float64)).max(axis=0)
+            c = hint if (hint is not None and hint < dev.size and dev[hint] <= LSB_BOUND) else int(np.argmin(dev))
+            if dev[c] <= LSB_BOUND:
+                res.append([1, int(c)])
+                continue
+        res.append([-1, -1])
+    return res
 
 
 # --------------------------------------------------------------------------
@@ -422,7 +466,7 @@ def gen_recordings(ctx):
         r = {"kind": kind, "ns": ns, "content": content, "shankmap": shankmap, "fs": fs,
              "seed": rng.randrange(2 ** 31), "sync_off": rng.randrange(65536), "sync_mul": mul,
              "windows": windows, "nshank": nshank,
-             "reuse": False, "nsamples": None, "offset": None, "strpath": False, "floatw": False, "compress": False}
+             "reuse": False, "nsamples": None, "offset": None, "strpath": False, "floatw": False, "compress": False, "nap": None}
         r.update(opt)
         recs.append(r)
 
@@ -485,6 +529,13 @@ def gen_recordings(ctx):
     #      outside the domain (offset + n beyond the file: NumPy clips the last reads): model agreement only
     rec("NP21", 2000, "walk", "fixture", "30000", [600, 1200], nsamples=2000, offset=100)
     rec("NP21", 1500, "walk", "fixture", "30000", [588], nsamples=1500, offset=1400)
+    # (b3) recordings saved with a channel subset (sns counts < acq counts): first nap AP channels + sync
+    subs = [("NP21", 192, "fixture"), ("NP24", 192, "fixture"), ("NP21", rng.randrange(2, 384), "fixture"),
+            ("NP24", rng.randrange(200, 384), "uneven")]
+    for i, (kind, nap, smap) in enumerate(subs if ctx.thorough() else subs[:3]):
+        ns = rng.randrange(1400, 2600)
+        rec(kind, ns + (ns % 12 == 0), contents[(i + 1) % len(contents)], smap, "30000" if i % 2 else "29999.757983",
+            [rng.choice([588, 612]), 1200], nap=nap, reuse=(i == 1))
     # (c) inadmissible window sizes (assert in init_params)
     for w in (590, 1201, 1199, 2405):
         rec("NP21", rng.randrange(700, 1500), "walk", "fixture", "30000", [w])
@@ -536,6 +587,8 @@ def run_group(ctx, rec, tmp, cases, meas, dist):
                 if in_domain:
                     bad = []
                     for fo in obs["files"]:
+                        if n > 2 * EDGE + RATIO:      # an interior exists: columns can be identified from the data
+                            fo["col_sources"] = observe_col_sources(rec, dat, ref, fo)
                         b = oracle_file(rec, W, dat, ref, fo, meas)
                         bad += [(c, "shank %d: %s" % (fo["sh"], msg)) for c, msg in b]
                     for clause, msg in bad[:3]:
@@ -616,6 +669,7 @@ def run(ctx):
     dist["shankmaps"] = sorted({c["desc"]["shankmap"] for c in cases})
     dist["ns_residues_mod_12"] = sorted({c["desc"]["ns"] % 12 for c in cases})
     dist["with_nsamples_or_offset"] = sum(1 for c in cases if c["desc"]["nsamples"] or c["desc"]["offset"] is not None)
+    dist["saved_channel_subset"] = sum(1 for c in cases if c["desc"].get("nap"))
     dist["compress_true"] = sum(1 for c in cases if c["desc"]["compress"])
     dist["str_path"] = sum(1 for c in cases if c["desc"]["strpath"])
     dist["float_window"] = sum(1 for c in cases if c["desc"]["floatw"])
